@@ -41,9 +41,27 @@ def match_known(known, prop, key):
     return None
 
 
-def san_summary(outdir, tag):
-    """-> (kind, text) from the sanitizer log files of a dead worker"""
-    txt = ""
+class _Tail(threading.Thread):
+    """keeps the last bytes a worker wrote to stderr (the library prints every raised error there, so the
+    whole stream can be hundreds of MB in a thorough run; UBSan writes its report there too)"""
+
+    def __init__(self, pipe, keep=65536):
+        threading.Thread.__init__(self, daemon=True)
+        self.pipe = pipe
+        self.keep = keep
+        self.buf = b""
+
+    def run(self):
+        while True:
+            chunk = self.pipe.read(65536)
+            if not chunk:
+                break
+            self.buf = (self.buf + chunk)[-self.keep:]
+
+
+def san_summary(outdir, tag, extra=""):
+    """-> (kind, text) from the sanitizer log files (and the stderr tail) of a dead worker"""
+    txt = extra
     for f in sorted(glob.glob(os.path.join(outdir, tag + ".san.*"))):
         try:
             txt += open(f, errors="replace").read()
@@ -93,19 +111,21 @@ class Shard(object):
             rf = os.path.join(outdir, self.tag + ".result")
             if os.path.exists(rf):
                 os.unlink(rf)
-            # the library prints every raised error to stderr: keep it only when asked to
-            errf = open(os.path.join(outdir, self.tag + ".stderr") if os.environ.get("VF_KEEP") else os.devnull, "wb")
+            p = subprocess.Popen([PY, "-m", "verif.worker", json.dumps(self.spec)], env=env, cwd=VERIF,
+                                 stdout=subprocess.DEVNULL, stderr=subprocess.PIPE)
+            tail = _Tail(p.stderr)
+            tail.start()
             try:
-                p = subprocess.Popen([PY, "-m", "verif.worker", json.dumps(self.spec)], env=env, cwd=VERIF,
-                                     stdout=subprocess.DEVNULL, stderr=errf)
-                try:
-                    rc = p.wait(timeout=self.timeout)
-                except subprocess.TimeoutExpired:
-                    p.kill()
-                    p.wait()
-                    rc = "watchdog"
-            finally:
-                errf.close()
+                rc = p.wait(timeout=self.timeout)
+            except subprocess.TimeoutExpired:
+                p.kill()
+                p.wait()
+                rc = "watchdog"
+            tail.join(10)
+            errtail = tail.buf.decode(errors="replace")
+            if os.environ.get("VF_KEEP"):
+                with open(os.path.join(outdir, self.tag + ".stderr"), "w") as fh:
+                    fh.write(errtail)
             res = None
             if os.path.exists(rf):
                 try:
@@ -133,15 +153,10 @@ class Shard(object):
             except Exception:
                 j = None
             if j is None:
-                tail = ""
-                try:
-                    tail = open(os.path.join(outdir, self.tag + ".stderr"), errors="replace").read()[-2000:]
-                except OSError:
-                    pass
                 self.state = "inconclusive"
-                self.error = "worker died (rc=%s) before any case was journaled\n%s" % (rc, tail)
+                self.error = "worker died (rc=%s) before any case was journaled\n%s" % (rc, errtail[-2000:])
                 return
-            kind, where, txt = san_summary(outdir, self.tag)
+            kind, where, txt = san_summary(outdir, self.tag, errtail[-20000:])
             if kind is None:
                 kind = "hang" if rc == -14 else "signal%s" % (-rc if isinstance(rc, int) else rc)
             ck = j["key"]
